@@ -10,4 +10,29 @@ CHECKS = {
   "text": "TLC enumerates every pattern of a bounded universe (bodies up to length 3 quick / 4 thorough over {a,b,.,/,^,*} x 6 anchorings x 24 URLs with repeated anchor text), checks the code-shaped model of the nine matcher paths against the three-valued Ideal, and every pair is executed on the real matcher and compared with the Ideal; beyond the bound, seeded random patterns/URLs recorded from the real matcher are validated by the same TLA+ operator. Exhaustive in the small, sampled beyond.",
   "note": TB + "Hosts lower-case ASCII, host range known by construction. '||host|' left unspecified. Full-regex (/re/) rules are outside the spec's pattern language: that clause of C02 is not decided here.",
  },
+
+ "C03": {
+  "level": "model_checking",
+  "technique": "TLA+ Ideal option semantics (Net!Hit) + code-shaped hit model checked by TLC; every exported case replayed on single-rule engines and NetworkMatchable::matches",
+  "text": "TLC enumerates every rule of {7 rule shapes} x {type-option sets} x {any,3p,1p} x {4 domain-list variants} (one state per rule), checks that the code-shaped hit model refines the Ideal outside named deviations, and exports the Ideal verdict/hit for every request of {request-type aliases} x {https,http,ws,wss,ftp} x {6 source relations}; each is executed on a real single-rule engine (optimised and not) and on the public matcher. Exhaustive over that cross product (quick: <=1 type atom plus selected pairs; thorough: all pairs and all 24 aliases).",
+  "note": TB + "Third-party computed in the spec (single-label suffixes). $domain= without source hostname unspecified. match-case not covered (needs full-regex rules). Domain lists are fixed variants, not random.",
+ },
+ "C13": {
+  "level": "model_checking",
+  "technique": "TLA+ Ideal redirect choice (argmax set, exception by resource) enumerated by TLC over rule sets; replayed on real engines with a resource store",
+  "text": "TLC enumerates all sets of <=3 rules from a pool of 41 redirect/redirect-rule/exception/blocking/important rules (priorities none,0,1,10,-1,malformed; resources present, aliased, missing, template, fn/javascript, permissioned) and exports the allowed verdicts (ties give a set); each case runs on real engines (optimised and not).",
+  "note": TB + "Resources carry their name as content so the served data-URL identifies the winner. Equal-priority ties are unordered (any winner accepted).",
+ },
+ "C14": {
+  "level": "model_checking",
+  "technique": "TLA+ structural URL rewrite (Net!RewriteAllowed) enumerated by TLC over query/fragment shapes x rule sets; replayed on real engines",
+  "text": "TLC enumerates sets of <=2 (quick) / <=3 rules from removeparam/blocking/important/exception rules and computes the structural rewrite for 200 URLs (20 query shapes x 5 fragment shapes x 2 request types); the real engine's rewritten_url must be one of the allowed strings byte for byte.",
+  "note": TB + "Lenient where only empty '&&' pairs remain ('?' may or may not survive). Non-ASCII query strings are not in the bounded universe.",
+ },
+ "C15": {
+  "level": "model_checking",
+  "technique": "TLA+ set algebra (Net!CspFor) enumerated by TLC over csp rule sets x tag sets; replayed on Engine::get_csp_directives",
+  "text": "TLC enumerates sets of <=3 (quick) / <=4 rules from 16 csp rules/exceptions/blanket exceptions (domains, tags, duplicates, badfilter, third-party) x tag sets, and the expected directive set for 72 requests (9 types x 4 sources x {https,ftp}); compared as sets with the real engine's policy.",
+  "note": TB + "Directives are opaque tokens without commas.",
+ },
 }
